@@ -54,6 +54,7 @@ type FuncContract struct {
 	File          string
 	Line          int
 	Safety        []string
+	SafetyKinds   []string
 	Variant       string
 	NaNParams     []string
 	Nullable      []string
@@ -283,7 +284,14 @@ func parseFuncDirective(fc *FuncContract, word, rest, file string, line int) {
 	case "nan":
 		fc.NaNParams = append(fc.NaNParams, strings.Fields(rest)...)
 	case "safety":
-		fc.Safety = append(fc.Safety, strings.Fields(rest)...)
+		// safety C10 C11 [kinds=bounds,div0,...]
+		for _, f := range strings.Fields(rest) {
+			if strings.HasPrefix(f, "kinds=") {
+				fc.SafetyKinds = strings.Split(strings.TrimPrefix(f, "kinds="), ",")
+			} else {
+				fc.Safety = append(fc.Safety, f)
+			}
+		}
 	case "callsite":
 		// callsite CALLEE [label] expr over arg0..argN
 		f := strings.SplitN(rest, " ", 2)
